@@ -15,7 +15,7 @@ func main() {
 			"fall-through, break, goto, return, tail call, an error caught by pcall/xpcall, coroutine suspension/death; afterwards a clobber call reuses the registers and the closures are read and written; " +
 			"setfenv/getfenv shapes; traces compared with the reference evaluator; non-trivial = at least 5 emitted rows or an error outcome; distinct by Gallina term",
 		Modes:     []luaprop.Mode{{Name: "closures", Features: f, Weight: 1}},
-		NQuick:    400,
+		NQuick:    240,
 		NThorough: 6000,
 		Corpus:    corpus,
 		Isolate:   true,
